@@ -222,6 +222,9 @@ func (w *SrvWork) build(q *wReq) *Msg {
 		m.Data = pattern(q.N, uint64(q.Idx), 3, 9)
 		m.Count = uint32(q.N)
 	case Twalk:
+		if w.x.C.cfg("inplacewalk") != 0 && q.Idx%3 == 1 {
+			q.Newfid = q.Fid // a walk in place: the new fid is the old one
+		}
 		m.Newfid = q.Newfid
 		for i := 0; i < q.N%4; i++ {
 			m.Wname = append(m.Wname, fmt.Sprintf("w%d", i))
